@@ -11,8 +11,10 @@ Trace validation. Line: `a=<0|1> d=<content> <event> …`
 * `Tb<c>` / `Te<m>` — `Transition` towards content `c` called / returned
   (`m`: its results differ from the old entries);
 * `Q1` — a poll signal was pending and was consumed; `Q0` — none was pending;
-* `W` — the harness waited several polling intervals: at least one polling
-  scan happened;
+* `W` — at least one polling scan has started since the harness began to wait
+  (counted through the fault hook);
+* `Z` — polling scans have happened, every strobe they decided on has long been
+  delivered, and no poll signal is pending;
 * `B1` / `B0` — the root was replaced by a symbolic link (scans fail) / the
   link was removed.
 
@@ -69,8 +71,8 @@ def step (cur : List St) (tok : String) : Option (List St) :=
       | none => none))
   | ['Q', '1'] => some (closeSet (cur.filterMap pollReturn))
   | ['Q', '0'] => some (closeSet (cur.filter fun s => !s.pending))
-  -- a wait: at least one complete polling iteration (scan, then its strobe delivered)
-  | ['W'] => some (closeSet (cur.map fun s => deliver (if s.broken then tickFail s else tick s)))
+  | ['W'] => some (closeSet (cur.map fun s => if s.broken then tickFail s else tick s))
+  | ['Z'] => some (closeSet ((cur.map deliver).filter fun s => !s.pending))
   | ['B', '1'] => some (closeSet (cur.map fun s => { s with broken := true }))
   | ['B', '0'] => some (closeSet (cur.map fun s => { s with broken := false }))
   | _ => none
